@@ -41,6 +41,20 @@ Theorem C20_handlers_exclusive : forall (S : Type) (bodies : nat -> list (S -> S
   forall i j r r', hs S c i = TIn S r -> hs S c j = TIn S r' -> i = j.
 Proof. exact handlers_exclusive. Qed.
 
+(* readers and writers under ONE RWMutex (the announcer's methods against the responders, the
+   spam loop and the status fetcher; allocator / BGP counters against their fetchers): every
+   answer a reader obtains is its query on the state left by a PREFIX of the COMPLETE writer
+   sections — never a half-updated state; outside writer sections the state is the serial
+   run in lock-acquisition order; a writer inside excludes all other writers and readers *)
+Theorem C20_rw_sections_atomic : forall (S A : Type) (wb : nat -> list (S -> S)) (rq : nat -> S -> A) (s0 : S) h c,
+  rwinit S A s0 h -> rwsteps S A wb rq (mk_rwconfig S A s0 h []) c ->
+  (forall i a, rths S A c i = RGot S A a \/ rths S A c i = RDone S A a ->
+     exists k, a = rq i (serial S wb (skipn k (rorder S A c)) s0)) /\
+  ((forall i, ~ writer_in S A (rths S A c i)) -> rsigma S A c = serial S wb (rorder S A c) s0) /\
+  (forall i j, writer_in S A (rths S A c i) ->
+     (writer_in S A (rths S A c j) -> i = j) /\ ~ reader_in S A (rths S A c j)).
+Proof. exact rw_sections_atomic. Qed.
+
 (* non-vacuity: a correctly locked reader/writer pair passes, dropping the read
    lock fails the checker, and the unlocked program really reaches a racy state *)
 Definition ex_G : guard_map := [("T.f", "T.mu")].
